@@ -166,7 +166,7 @@ def rand_item(r, lo, hi):
     a = r.randint(lo, hi)
     b = r.randint(a, hi)
     c = r.random()
-    return ["num", a] if c < .45 else ["range", a, b] if c < .75 else ["rs", a, b, r.randint(1, max(1, hi // 2))]
+    return ["num", a] if c < .45 else ["range", a, b] if c < .75 else ["rs", a, b, r.randint(1, hi if c < .8 else max(1, hi // 2))]
 
 
 def rand_field(r, lo, hi):
@@ -174,7 +174,7 @@ def rand_field(r, lo, hi):
     if k < .25:
         return ["star"]
     if k < .4:
-        return ["sstep", r.randint(1, hi)]
+        return ["sstep", r.randint(1, hi + (5 if r.random() < .1 else 0))]
     return ["items", [rand_item(r, lo, hi) for _ in range(r.choice([1, 1, 2, 3]))]]
 
 
@@ -279,14 +279,14 @@ def gen_case(r):
     return finish_case(r, dict(now=now, off=off), e, mode)
 
 
-def transitions(zone, year):
+def transitions(zone, year, step_hours=1):
     """UTC instants (us) in `year` at which the zone's offset changes, found by scanning the oracle reader"""
     z = zi(zone)
     t = dt.datetime(year, 1, 1, tzinfo=dt.timezone.utc)
     end = dt.datetime(year + 1, 1, 1, tzinfo=dt.timezone.utc)
     out, prev = [], t.astimezone(z).utcoffset()
     while t < end:
-        n = t + dt.timedelta(hours=1)
+        n = t + dt.timedelta(hours=step_hours)
         if n.astimezone(z).utcoffset() != prev:
             lo, hi = t, n
             while hi - lo > dt.timedelta(minutes=1):
@@ -345,6 +345,33 @@ def gen_sweep(r, windows, stride=1):
                 else:
                     e, mode = gen_expr(r, pyfields(shifted(now2, off)[0]), r.choice(["near", "near", "rand"]))
                 cases.append(finish_case(r, dict(now=now2, off=off, sweep=wi), e, mode))
+    return cases
+
+
+def gen_allzones(r, nzones, per_zone, around_transitions):
+    """breadth over the zone set: pytz.common_timezones, random instants (and, thorough, the minutes around one
+    transition of the zone), expression pinned to the local minute (due) or to the UTC minute / a near miss"""
+    import pytz   # only for the list of names and to locate its data; no taskiq code runs in this process
+    zones = sorted(pytz.common_timezones)
+    zones = zones if nzones is None else r.sample(zones, nzones)
+    cases = []
+    for z in zones:
+        off = {"kind": "zone", "zone": z}
+        instants = [r.randrange(Y2015, Y2035) for _ in range(per_zone)]
+        if around_transitions:
+            tr = transitions(z, r.choice([2016, 2021, 2026, 2029, 2033]), step_hours=36)
+            for T in tr[:2]:
+                instants += [T - 1, T, T + MIN - 1, T - MIN, T + HOUR, T - HOUR + 30 * US]
+        for now in instants:
+            loc, sh = shifted(now, off)
+            k = r.random()
+            if k < .5:
+                e, mode = pin_expr(pyfields(loc)), "pin"
+            elif k < .75:
+                e, mode = pin_expr(pyfields(EP + dt.timedelta(microseconds=now))), "pin-utc-clock"
+            else:
+                e, mode = gen_expr(r, pyfields(loc), "near")
+            cases.append(finish_case(r, dict(now=now, off=off), e, mode))
     return cases
 
 
@@ -465,11 +492,18 @@ def explore(ctx, rep, cases, label, judge=True):
         pf = pyfields(loc)
         d = o["delay"]
         if off is not None and off["kind"] == "zone":
-            rep.count("zone:" + off["zone"])
+            rep.count("zone:" + (off["zone"] if off["zone"] in ZONES else "(other common_timezones)"))
             rep.count("tz-readers:" + ("pytz=zoneinfo" if o.get("pytz_off_us") == sh else "pytz!=zoneinfo"))
-            if o.get("pytz_off_us") != sh:
+            if o.get("pytz_off_us") != sh and len(rep.extra.get("tz_reader_disagreements", [])) < 20:
                 rep.extra.setdefault("tz_reader_disagreements", []).append(
                     dict(zone=off["zone"], now=c["now"], pytz=o.get("pytz_off_us"), zoneinfo=sh))
+        tz_agree = not (off is not None and off["kind"] == "zone") or o.get("pytz_off_us") == sh
+        carried = (o["offtype"] == "NoneType") if off is None else (o.get("off_us") == off["us"]) if off["kind"] == "td" \
+            else (o.get("off_zone") == off["zone"])
+        if not carried:
+            rep.fail("ScheduledTask / CronSpec did not carry the cron offset unchanged", c, observed=o,
+                     sig=dict(kind="offset-carried"))
+            continue
         want = oracle_due(c["cron"], pf)
         rep.count("outcome:" + ("due" if d == 0 else "not-due"))
         branch_counts(rep, c, pf, want)
@@ -485,7 +519,8 @@ def explore(ctx, rep, cases, label, judge=True):
                 ("reported due", "does not match") if d == 0 else ("not reported due", "matches")), c,
                 observed=dict(delay=d, cron=o["cron"]),
                 expected=dict(due=want, fields_minute_hour_dom_month_dow_year=pf, shift_us=sh),
-                sig=dict(kind="polarity", got_due=(d == 0), offset="none" if off is None else off["kind"]))
+                sig=dict(kind="polarity", got_due=(d == 0), offset="none" if off is None else off["kind"],
+                         pytz_agrees_with_zoneinfo_reader=tz_agree))
         lits.append(coq_case(c, sh, pf, d, judge))
         keep.append(c)
     bad, fails, _ = C.coq_eval(ctx, label, COQ_HEADER, lits, COQ_BODY)
@@ -509,6 +544,9 @@ def run(ctx):
         sw = gen_sweep(ctx.sub_rng("sweep"), sweep_windows(ctx.sub_rng("windows")))
         rep.extra["minute_exhaustive_windows"] = len(sw) // (1440 * 8)
     broken = explore(ctx, rep, sw, "sweep") or broken
+    az = gen_allzones(ctx.sub_rng("zones"), ctx.n(60, None), ctx.n(4, 12), not ctx.quick)
+    rep.extra["zones_covered"] = len({c["off"]["zone"] for c in az}) + len(ZONES)
+    broken = explore(ctx, rep, az, "all-zones") or broken
     r3 = ctx.sub_rng("oor")
     broken = explore(ctx, rep, [gen_oor(r3) for _ in range(ctx.n(300, 3000))], "out-of-range-numerals", judge=False) or broken
     observe_malformed(ctx, rep)
@@ -522,6 +560,14 @@ def run(ctx):
 
 def replay(ctx, path):
     rec = json.load(open(path))
+    if rec.get("kind") == "obligation-no-longer-checks":
+        print("broken obligations:", json.dumps(rec["broken_obligations"], indent=1)[:3000])
+        rc = 0
+        for m in rec.get("first_differing_cases", []):
+            if isinstance(m.get("case"), dict):
+                json.dump(dict(case=m["case"]), open(os.path.join(ctx.dir, "one.json"), "w"))
+                rc |= replay(ctx, os.path.join(ctx.dir, "one.json"))
+        return 1 if rc or not rec.get("first_differing_cases") else rc
     c = rec["case"] if "case" in rec else rec
     o = C.run_driver(ctx, "cron_driver", [c], nproc=1)[0]
     print("case:", json.dumps(c))
@@ -536,10 +582,12 @@ def replay(ctx, path):
         loc.isoformat(), sh, pf))
     print("statement: due <-> expression matches that minute: expected %s, got %s" % (
         "due (0)" if want else "not due (None)", o["delay"]))
+    model_ok = True
     if c.get("expr") is not None:
         bad, fails, _ = C.coq_eval(ctx, "replay", COQ_HEADER, [coq_case(c, sh, pf, o["delay"], True)], COQ_BODY)
         print("model (Coq, cron_delay = implementation and C13_check):", "agrees" if not bad and not fails else
               "DIFFERS " + "; ".join(fails))
+        model_ok = not bad and not fails
     ok = (o["delay"] == 0) == want and o["delay"] in (0, None) and o["cron"] == c["cron"]
     print("holds" if ok else "VIOLATED")
-    return 0 if ok else 1
+    return 0 if ok and model_ok else 1
